@@ -652,3 +652,165 @@ def show(r):
             return f"{show(r[1])}[{f(r[2])}:{f(r[3])}:{f(r[4])}]"
         return k + "(" + ", ".join(show(c) for c in r[1:]) + ")"
     return "[" + ", ".join(show(c) for c in r) + "]"
+
+
+# ------------------------------------------------------------------------------------------
+# second reference for C11: the NumPy counterpart of every vector / matrix operation
+# ------------------------------------------------------------------------------------------
+class NumpyAlg:
+    """vectors are 1-D float arrays, matrices 2-D float arrays, scalars np.float64; every node is the
+    NumPy operation the API documents as its counterpart (slicing, .T, np.diag, broadcasting, @, np.linalg.norm)"""
+
+    def __init__(self, env, values, pvalues=None):
+        self.env, self.values, self.pvalues = env, values, pvalues or {}
+
+    def ev(self, r):
+        with np.errstate(all="ignore"):
+            return getattr(self, "n_" + r[0])(*r[1:])
+
+    _UF = None
+
+    @classmethod
+    def _uf(cls, f):
+        from harness.scalars import _NP
+        return np.negative if f == "neg" else _NP[f]
+
+    @staticmethod
+    def _op(op, a, b):
+        if op == "+":
+            return a + b
+        if op == "-":
+            return a - b
+        if op == "*":
+            return a * b
+        if op == "/":
+            return np.divide(a, b)
+        if op == "**":
+            return np.power(a, b)
+        raise ValueError(op)
+
+    # scalars
+    def n_var(self, name):
+        return np.float64(self.values[name])
+
+    def n_const(self, kind, value):
+        return np.float64(value)
+
+    def n_param(self, name):
+        return np.float64(self.pvalues[name])
+
+    def n_elem(self, V, i):
+        return self.ev(V)[i]
+
+    def n_melem(self, M, i, j):
+        return self.ev(M)[i, j]
+
+    def n_bin(self, op, a, b):
+        return self._op(op, self.ev(a), self.ev(b))
+
+    def n_un(self, f, a):
+        return self._uf(f)(self.ev(a))
+
+    def n_vsum(self, V):
+        return np.sum(self.ev(V))
+
+    n_vector_sum = n_vsum
+
+    def n_dot(self, A, B, style):
+        return self.ev(A) @ self.ev(B)
+
+    def n_dotself(self, A, style):
+        a = self.ev(A)
+        return a @ a
+
+    def n_lincomb(self, coeffs, V, style):
+        return np.asarray(coeffs, dtype=float) @ self.ev(V)
+
+    def n_norm(self, V, ord_, style):
+        return np.linalg.norm(self.ev(V), ord_)
+
+    def n_quad(self, V, Q, style):
+        v = self.ev(V)
+        return v @ np.asarray(Q, dtype=float) @ v
+
+    def n_msum(self, M):
+        return np.sum(self.ev(M))
+
+    def n_fro(self, M):
+        return np.linalg.norm(self.ev(M), "fro")
+
+    def n_trace(self, M, style):
+        return np.trace(self.ev(M))
+
+    # vectors
+    def n_view(self, key):
+        return self.ev(self.env["views"][key])
+
+    def n_vvar(self, name):
+        n = env_vec(self.env, name)["n"]
+        return np.array([self.values[f"{name}[{i}]"] for i in range(n)], dtype=float)
+
+    def n_slice(self, V, a, b, s):
+        return self.ev(V)[a:b:s]
+
+    def n_row(self, M, i, a, b, s):
+        return self.ev(M)[i, a:b:s]
+
+    def n_col(self, M, a, b, s, j):
+        return self.ev(M)[a:b:s, j]
+
+    def n_diag(self, M, style):
+        return np.diag(self.ev(M))
+
+    def _operand(self, operand):
+        k = operand[0]
+        if k in ("V", "M"):
+            return self.ev(operand[1])
+        if k == "num":
+            return np.float64(operand[2])
+        return np.asarray(operand[1], dtype=float)
+
+    def n_vbin(self, op, V, operand, side):
+        v, o = self.ev(V), self._operand(operand)
+        return self._op(op, v, o) if side == "right" else self._op(op, o, v)
+
+    def n_vneg(self, V):
+        return -self.ev(V)
+
+    def n_vfn(self, f, V):
+        return self._uf(f)(self.ev(V))
+
+    def n_vpow(self, V, k):
+        return np.power(self.ev(V), np.float64(k))
+
+    def n_matvec(self, A, V, style):
+        return np.asarray(A, dtype=float) @ self.ev(V)
+
+    def n_mvarvec(self, M, V):
+        return self.ev(M) @ self.ev(V)
+
+    def n_vexpr(self, items):
+        return np.array([self.ev(s) for s in items], dtype=float)
+
+    # matrices
+    def n_mvar(self, name):
+        m = env_mat(self.env, name)
+        out = np.empty((m["r"], m["c"]))
+        for i in range(m["r"]):
+            for j in range(m["c"]):
+                key = f"{name}[{j},{i}]" if (m.get("sym") and j < i) else f"{name}[{i},{j}]"
+                out[i, j] = self.values[key]
+        return out
+
+    def n_T(self, M):
+        return self.ev(M).T
+
+    def n_msub(self, M, rs, cs):
+        return self.ev(M)[slice(*rs), slice(*cs)]
+
+    def n_mbin(self, op, M, operand, side):
+        m, o = self.ev(M), self._operand(operand)
+        return self._op(op, m, o) if side == "right" else self._op(op, o, m)
+
+    def n_mneg(self, M):
+        return -self.ev(M)
